@@ -20,7 +20,7 @@ func genC13(dir, tier string, seed int64) {
 	}
 	hdr := "From Coq Require Import List String ZArith.\nFrom V Require Import Case Run CheckC01 CheckC13.\nImport ListNotations.\nOpen Scope string_scope.\nOpen Scope Z_scope.\nDefinition cases : list scase := ["
 	cw := newCaseWriter(dir, "C13_signatures", hdr, opFooter,
-		"seeded random signatures: 1..3 declared inputs of rank 1..4, each dimension fixed (1..4; one in 25 negative, which no tensor satisfies), symbolic or unspecified; 0..1 of them shadowed by an initializer; one node reads every input, except (one case in three) a further declared input that no node reads; supplied sets: exact (dynamic dimensions of random size), one tensor missing, an extra tensor, tensors swapped between names, rank -1/+1 (0..5), one axis off by one, initializer-shadowed input supplied or not", false, 300)
+		"seeded random signatures: 1..3 declared inputs of rank 1..4, each dimension fixed (1..4; one in 25 negative, which no tensor satisfies), symbolic or unspecified; 0..3 of them (neighbours in the declaration) shadowed by initializers; one node reads every input, except (one case in three) a further declared input that no node reads; supplied sets: exact (dynamic dimensions of random size), one tensor missing, an extra tensor, tensors swapped between names, rank -1/+1 (0..5), one axis off by one, initializer-shadowed input supplied or not", false, 300)
 	intro := goOnlyResult{Stream: "C13_introspection_and_purity", Rule: "for every generated signature: InputNames/InputShapes/InputDimSize report exactly the declared names, ranks, fixed sizes and dynamic flags; a rejected Run returns no outputs and leaves every supplied tensor bit-identical", Violations: []string{}}
 	for i := 0; i < n; i++ {
 		c := &sgraphCase{initVals: map[string]stens{}, feed: map[string]stens{}, opset: 13}
@@ -55,13 +55,18 @@ func genC13(dir, tier string, seed int64) {
 			c.feedOrd = append(c.feedOrd, in.name)
 		}
 		// an input shadowed by an initializer (a default): need not be supplied
-		if r.Intn(4) == 0 {
+		if r.Intn(3) == 0 {
+			// ... one, or a run of two or three NEIGHBOURING declared inputs (weights and biases listed one after
+			// the other, as older exporters write them)
 			k := r.Intn(nIn)
-			nm := c.inputs[k].name
-			c.inits = append(c.inits, nm)
-			c.initVals[nm] = stens{c.feed[nm].shape, int64(2000 + r.Intn(900))}
-			if r.Intn(2) == 0 {
-				delete(c.feed, nm)
+			cnt := 1 + r.Intn(nIn-k)
+			for j := k; j < k+cnt; j++ {
+				nm := c.inputs[j].name
+				c.inits = append(c.inits, nm)
+				c.initVals[nm] = stens{c.feed[nm].shape, int64(2000 + r.Intn(900))}
+				if r.Intn(2) == 0 {
+					delete(c.feed, nm)
+				}
 			}
 		}
 		if r.Intn(3) == 0 {
